@@ -140,6 +140,14 @@ def gen_cases(rng, tier, info):
         for label, cl, ents in allc:
             kinds[label.split(":")[0].split("=")[0].rstrip("0123456789@")] = kinds.get(label.split(":")[0].split("=")[0].rstrip("0123456789@"), 0) + 1
             cases.append(Case("%s-%d" % (label, long_refs), [msienc.enc_open_raw(cl or clsid, ents)] + probes, ("struct",)))
+    # well-formed files with odd but legal catalog contents: a value range whose minimum exceeds its maximum, a range of
+    # one value, a range over the whole 32-bit domain -- every probe (incl. INSERT / UPDATE of integers) must answer
+    for k, r in enumerate(((10, 1), (7, 7), (-2**31 + 1, 2**31 - 1), (2**31 - 1, -2**31 + 1))):
+        t_cols = [mk("K", "i16", pk=True, rng=r if k % 2 else None), mk("V", ("str", 8), null=True), mk("N", "i32", null=True, rng=r)]
+        tables = {"T": (t_cols, [[1, "a", None], [2, "shared", None]]), "U": (U_COLS, [["x", 1]])}
+        clsid, ents, _ = msienc.encode_db(rng, 0, 65001, tables, BASE_SUMMARY, {}, long_refs=False)
+        cases.append(Case("oddrange-%d" % k, [msienc.enc_open_raw(clsid, ents)] + probes +
+                          ["(update %s ((%s %s)) ())" % (X.enc_str("T"), X.enc_str("N"), X.enc_value(5)), "(flush)", "(rows)"], ("struct",)))
     # byte-level damage below the stream level (implementation only)
     n_hist = 6 if tier == "quick" else 40
     per = 120 if tier == "quick" else 1500
